@@ -47,13 +47,13 @@ CHECKS = {
     "C07": {
         "worlds": [{"name": "store", "variants": {"quick": ["asan", "ship", "alt"], "thorough": ["asan", "ship", "alt"]},
                     "runs": {"quick": 4000, "thorough": 200000}, "secondary_share": 0.5}],
-        "rule": "one run = one seeded Plan: 4..40 reads of stored artifacts (20 artifact types x 9 disk conditions: intact, bit rot, torn between two valid artifacts, short, extended, "
-                "stale, misdirected, zero block, FF block) each followed by parse, verify and use of whatever parsed; allocator faults on the allocating parse path; monitors: "
+        "rule": "one run = one seeded Plan: 4..40 reads of stored artifacts (20 artifact types x 11 disk conditions: intact, bit rot, torn between two valid artifacts, short, extended, "
+                "stale, misdirected, zero block, FF block, single-bit rot in the header bytes, single-bit rot in the last byte) each followed by parse, verify and use of whatever parsed (rewind with every combination of optional outputs and a right / wrong nonce; a third of the runs read with the static context wherever the header allows it); allocator faults on the allocating parse path; monitors: "
                 "ASan/UBSan/VERIFY_CHECK (asan variant), callback counters, 0/1 returns, canaries, leak accounting; non-trivial = a disk fault altered the record and the monitors "
                 "were evaluated after it; distinct = distinct Plan hash",
         "components": COMPONENTS,
         "assumptions": ["scoped claim: only byte strings that faults produce from valid artifacts are explored, not all byte strings; crafted count fields are input-space",
-                        "the always-on monitors also ride on every other world and report under C07"],
+                        "the always-on monitors also ride on every other world; a crash or sanitizer report there fails that world's check"],
     },
     "C12": {
         "worlds": [{"name": "musig", "variants": {"quick": ["ship", "asan_nv", "alt"], "thorough": ["ship", "asan_nv", "alt"]},
@@ -87,8 +87,9 @@ CHECKS = {
         "rule": "one run = one seeded Plan: 1..6 anti-exfil protocol runs host<->device (message classes incl. >= n, repeated host randomness), faults attached to logical "
                 "messages, host/device crashes, device context events; non-trivial = a fault fired and a provenance/model comparison happened after it; distinct = distinct Plan hash",
         "components": COMPONENTS,
-        "assumptions": ["the sign-to-contract nonce derivation is library specific and not recomputed by the model: oracles are provenance based (what the device actually produced for which inputs), "
-                        "plus ECDSA validity in the reference model and nonce-uniqueness with key extraction"],
+        "assumptions": ["the signer's nonce derivation is library specific and not recomputed by the model; the host's hash commitment and the commitment check r = x(R0 + H(R0 || datum) G) are (reference model), "
+                        "every signature is checked against it together with eight single-bit mutations of datum, r and opening at plan-derived positions; other oracles are provenance based "
+                        "(what the device actually produced for which inputs), ECDSA validity in the reference model and nonce-uniqueness with key extraction"],
     },
     "C17": {
         "worlds": [{"name": "halfagg", "variants": {"quick": ["ship", "asan", "alt"], "thorough": ["ship", "asan", "alt"]},
